@@ -520,6 +520,14 @@ class VC:
                 raise Unsupported(f"operator {op} on a symbolic string")
             return SymStr(_chars(l) + _chars(r))
         if isinstance(l, SymBool) or isinstance(r, SymBool):
+            # Python: bool & | ^ bool is a bool; a bool in arithmetic is the integer 0 / 1
+            if isinstance(l, (SymBool, bool)) and isinstance(r, (SymBool, bool)) and op in ("BitAnd", "BitOr", "BitXor"):
+                a, b = self._zb(l), self._zb(r)
+                return SymBool({"BitAnd": z3.And(a, b), "BitOr": z3.Or(a, b), "BitXor": z3.Xor(a, b)}[op])
+            if op in ("Add", "Sub", "Mult") and all(isinstance(x, (SymBool, SymZ, int)) for x in (l, r)):
+                def as_z(x):
+                    return SymZ(z3.If(x.z, z3.IntVal(1), z3.IntVal(0))) if isinstance(x, SymBool) else (int(x) if isinstance(x, bool) else x)
+                return self.binop(op, as_z(l), as_z(r))
             raise Unsupported(f"operator {op} on a symbolic bool")
         if isinstance(l, SymInt) or isinstance(r, SymInt):
             raise Unsupported(f"operator {op} on a symbolic int")
@@ -876,7 +884,7 @@ class Engine:
         return nf
 
     # -- running ------------------------------------------------------------------------------
-    def explore(self, mk, max_paths=256):
+    def explore(self, mk, max_paths=256):  # noqa
         """mk(vc) -> (f, args, kwargs); run f along every path.  Returns a list of Path."""
         paths, work = [], [[]]
         while work:
